@@ -125,7 +125,9 @@ func Try(a app.App, ctx app.IOContext) (err error) {
 				Lock:        nil,    // lock is unsupported
 				Wait:        nil,    // wait is unsupported
 			}); err != nil {
-				parentScope.AppendError(err)
+				// the command scope is usually closing by now (its Close waits for this
+				// goroutine) and refuses AppendError with a panic: report through its context
+				parentScope.BaseContextScope().AppendError(err)
 				return
 			}
 		}
@@ -146,7 +148,9 @@ func Try(a app.App, ctx app.IOContext) (err error) {
 				Lock:        nil,    // lock is unsupported
 				Wait:        nil,    // wait is unsupported
 			}); err != nil {
-				parentScope.AppendError(err)
+				// the command scope is usually closing by now (its Close waits for this
+				// goroutine) and refuses AppendError with a panic: report through its context
+				parentScope.BaseContextScope().AppendError(err)
 				return
 			}
 		}
@@ -167,7 +171,9 @@ func Try(a app.App, ctx app.IOContext) (err error) {
 				Lock:        nil,    // lock is unsupported
 				Wait:        nil,    // wait is unsupported
 			}); err != nil {
-				parentScope.AppendError(err)
+				// the command scope is usually closing by now (its Close waits for this
+				// goroutine) and refuses AppendError with a panic: report through its context
+				parentScope.BaseContextScope().AppendError(err)
 				return
 			}
 		}
